@@ -193,6 +193,7 @@ type client interface {
 	Rest() error                        // request complete
 	ReadHalf() error                    // response head and part of its body read, then the client stops reading
 	ReadRest() (bool, string)           // remainder read and verified
+	BigSize() int                       // response size that cannot be written in one go to a client that stopped reading
 	Close()
 }
 
@@ -280,7 +281,8 @@ func (h *h1Client) ReadRest() (bool, string) {
 	}
 	return true, ""
 }
-func (h *h1Client) Close() { h.c.Close() }
+func (h *h1Client) Close()       { h.c.Close() }
+func (h *h1Client) BigSize() int { return bigResp }
 
 // ---- bolt v1
 
@@ -395,7 +397,8 @@ func (b *boltClient) ReadRest() (bool, string) {
 	}
 	return true, ""
 }
-func (b *boltClient) Close() { b.c.Close() }
+func (b *boltClient) Close()       { b.c.Close() }
+func (b *boltClient) BigSize() int { return bigResp }
 
 func short(err error) string {
 	s := err.Error()
